@@ -288,4 +288,117 @@ one kelvin at every precision. -/
 def keyWholeT {α : Type} [KawinV.HashCache.KeyScalar α] (s : Nat) (x : List α) (T : α) : List (Option Int) :=
   x.map (KawinV.HashCache.scaled s) ++ [KawinV.HashCache.KeyScalar.trunc T]
 
+
+/-! ### several HomogenizationModel objects and the parameter objects they hold
+(HomogenizationModel.__init__ 9-24, its setters 26-76, and the first lines of `_getFluxes`, which hand
+`self.homogenizationParameters` to `computeHomogenizationFunction`)
+
+A *parameters object* (`HomogenizationParameters`) is a mutable record: averaging rule, labyrinth
+factor, post-processing mode with its arguments, and `eps`.  A model holds a REFERENCE to one.
+The store below keeps the parameter objects by identity (`pid` = position in allocation order) and,
+for every model (`mid` = position in creation order), the identity of the object it holds.
+
+`HomogenizationModel(..., homogenizationParameters = None)` allocates a NEW object with the documented
+defaults (`dflt = none` below: the code); `homogenizationParameters = obj` stores the reference the
+user handed over — two models given the same object are coupled, by the user's choice.  The variant
+`dflt = some d` ("one default object made when the module is imported": a mutable default argument)
+is NOT the code; it is kept for the witness theorem in Props/C17 that it couples unrelated models. -/
+
+section objects
+variable {ι α : Type} [DecidableEq ι]
+  [Add α] [Sub α] [Mul α] [Div α] [Neg α] [Zero α] [One α]
+  [OfNat α 2] [OfNat α 3] [LT α] [DecidableLT α]
+
+/-- the state of one `HomogenizationParameters` object -/
+structure Params (ι α : Type) where
+  cfg : Cfg ι α
+  eps : α
+
+/-- `HomogenizationParameters()`: upper Wiener, factor 1, no post-processing, eps = 0.05 (`eps0`) -/
+def defaultParams (eps0 : α) : Params ι α :=
+  { cfg := { rule := .wienerUpper, n := 1, post := .none }, eps := eps0 }
+
+/-- what one setter call changes (the model's setters forward to the parameters object) -/
+inductive Setting (ι α : Type) where
+  | rule (r : Rule)        -- setMobilityFunction / setHomogenizationFunction
+  | factor (n : α)         -- setLabyrinthFactor: stores np.clip(n, 1, 2)
+  | post (p : Post ι)      -- setMobilityPostProcessFunction / setPostProcessFunction
+  | eps (e : α)            -- setIdealEps (not read by the mobility evaluation)
+
+def applySetting (s : Setting ι α) (p : Params ι α) : Params ι α :=
+  match s with
+  | .rule r => { p with cfg := { p.cfg with rule := r } }
+  | .factor n => { p with cfg := { p.cfg with n := clipFactor n } }
+  | .post q => { p with cfg := { p.cfg with post := q } }
+  | .eps e => { p with eps := e }
+
+/-- one step of a history over several objects -/
+inductive MOp (ι α : Type) where
+  | newParams (p : Params ι α)            -- the user builds a HomogenizationParameters(...) object
+  | newModel (arg : Option Nat)           -- HomogenizationModel(..., homogenizationParameters = None | object `pid`)
+  | set (mid : Nat) (s : Setting ι α)     -- a setter of model `mid`
+  | setP (pid : Nat) (s : Setting ι α)    -- a setter called on the parameters object itself
+  | eval (mid : Nat) (pts : List (Point ι α))   -- model `mid` evaluates the records of its nodes
+
+structure Store (ι α : Type) where
+  params : List (Params ι α)   -- parameter objects in allocation order
+  models : List Nat            -- per model: identity of the parameters object it holds
+
+/-- nothing built yet; in the variant with an import-time default object that object exists already -/
+def initStore (eps0 : α) : Option Nat → Store ι α
+  | none => { params := [], models := [] }
+  | some _ => { params := [defaultParams eps0], models := [] }
+
+def setAt (st : Store ι α) (pid : Nat) (s : Setting ι α) : Store ι α :=
+  match st.params[pid]? with
+  | some p => { st with params := st.params.set pid (applySetting s p) }
+  | none => st
+
+/-- the loop of `computeHomogenizationFunction` over the records of the nodes under one parameters
+object; the first exception of the post-process function ends the call -/
+def evalParams (pw : α → α → α) (tiny big : α) (db : List ι) (p : Params ι α) :
+    List (Point ι α) → Except String (List (List α))
+  | [] => .ok []
+  | pt :: r =>
+    match evalPoint pw tiny big db p.cfg pt with
+    | .error e => .error e
+    | .ok v => (evalParams pw tiny big db p r).map (fun vs => v :: vs)
+
+/-- what a model evaluates with: the CURRENT state of the object it holds a reference to -/
+def evalModel (pw : α → α → α) (tiny big : α) (db : List ι) (st : Store ι α) (mid : Nat)
+    (pts : List (Point ι α)) : Except String (List (List α)) :=
+  match st.models[mid]? with
+  | none => .error "no such model"
+  | some pid =>
+    match st.params[pid]? with
+    | none => .error "no such parameters object"
+    | some p => evalParams pw tiny big db p pts
+
+def stepM (pw : α → α → α) (tiny big eps0 : α) (db : List ι) (dflt : Option Nat) (st : Store ι α) :
+    MOp ι α → Store ι α × Option (Except String (List (List α)))
+  | .newParams p => ({ st with params := st.params ++ [p] }, none)
+  | .newModel none =>
+    match dflt with
+    | none => ({ params := st.params ++ [defaultParams eps0], models := st.models ++ [st.params.length] }, none)
+    | some d => ({ st with models := st.models ++ [d] }, none)
+  | .newModel (some pid) =>
+    if pid < st.params.length then ({ st with models := st.models ++ [pid] }, none) else (st, none)
+  | .set mid s =>
+    match st.models[mid]? with
+    | some pid => (setAt st pid s, none)
+    | none => (st, none)
+  | .setP pid s => (setAt st pid s, none)
+  | .eval mid pts => (st, some (evalModel pw tiny big db st mid pts))
+
+/-- a whole history: the store at the end and the answer of every `eval`, in order -/
+def runM (pw : α → α → α) (tiny big eps0 : α) (db : List ι) (dflt : Option Nat) :
+    Store ι α → List (MOp ι α) → Store ι α × List (Except String (List (List α)))
+  | st, [] => (st, [])
+  | st, op :: r =>
+    let a := stepM pw tiny big eps0 db dflt st op
+    let b := runM pw tiny big eps0 db dflt a.1 r
+    (b.1, match a.2 with | some o => o :: b.2 | none => b.2)
+
+end objects
+
 end KawinV.Homog
